@@ -1196,7 +1196,32 @@ class Interp:
         raise Unsupported("global statement")
 
     def st_With(self, s, frame):
-        raise Unsupported("with statement")
+        """with A as x, B as y: body  --  __enter__ / __exit__ called as CPython does (an exception in the body is handed to
+        __exit__, which may suppress it; return / break / continue leave through __exit__(None, None, None))"""
+        self._with_items(list(s.items), s.body, frame)
+
+    def _with_items(self, items, body, frame):
+        if not items:
+            self.exec_block(body, frame)
+            return
+        it = items[0]
+        ctx = self.ev(it.context_expr, frame)
+        value = self.call(self.getattr_(ctx, "__enter__"), [], {})
+        exit_ = self.getattr_(ctx, "__exit__")
+        if it.optional_vars is not None:
+            self.assign(it.optional_vars, value, frame)
+        try:
+            self._with_items(items[1:], body, frame)
+        except (PathEnd, Unsupported, core.CheckerError):
+            raise
+        except (_Return, _Break, _Continue):
+            self.call(exit_, [None, None, None], {})
+            raise
+        except Exception as e:
+            if self.truth(self.call(exit_, [type(e), e, None], {})):
+                return
+            raise
+        self.call(exit_, [None, None, None], {})
 
     # loops ---------------------------------------------------------------
     def loop_spec_for(self, s, frame):
